@@ -222,7 +222,16 @@ def _fork(ctx, run, case, rng):
     sometimes reset).  Returns a description if either dispatcher no longer matches the state
     implied by its own history."""
     import copy
-    d2 = copy.deepcopy(run.d)
+    import pickle
+    d2 = None
+    if rng.random() < 0.35:
+        try:
+            d2 = pickle.loads(pickle.dumps(run.d))     # a serialisation round trip is a copy too
+            ctx.count("forks_by_pickle")
+        except Exception:
+            d2 = None                                   # closures among filters / observers
+    if d2 is None:
+        d2 = copy.deepcopy(run.d)
     twin = Run(case["instance"], case.get("filter"), dispatcher=d2, instance=d2.instance)
     twin.r = run.r.clone()
     ctx.count("forks")
